@@ -253,17 +253,23 @@ func main() {
 type scenario struct {
 	Prog  int    `json:"prog"`
 	Entry string `json:"entry"` // eval | execute | evalpath
+	Warm  bool   `json:"warm"`  // the interpreter has already completed one plain evaluation
 }
 
-func (s scenario) name() string { return family[s.Prog].Name + " entry=" + s.Entry }
+func (s scenario) name() string {
+	if s.Warm {
+		return family[s.Prog].Name + " entry=" + s.Entry + " warm"
+	}
+	return family[s.Prog].Name + " entry=" + s.Entry
+}
 
 type result struct {
-	Points   []vsched.Point
-	Choices  []int
-	Outcome  string // "" = fine
-	Cancelled bool  // the cancel happened while the evaluation was in progress
-	Threads  int
-	Steps    int
+	Points    []vsched.Point
+	Choices   []int
+	Outcome   string // "" = fine
+	Cancelled bool   // the cancel happened while the evaluation was in progress
+	Threads   int
+	Steps     int
 }
 
 // run executes one schedule.
@@ -315,6 +321,16 @@ func run(sc scenario, prefix []int) (r result) {
 				}
 			}),
 		}})
+		if sc.Warm {
+			// an earlier, completed, plain evaluation: long-lived frames keep what it left behind
+			if _, err := i.Eval("var warm = 1"); err != nil {
+				evalErr = fmt.Errorf("warm-up: %v", err)
+				return
+			}
+			mu.Lock()
+			stepsSoFar = 0
+			mu.Unlock()
+		}
 		ctx, cancel := context.WithCancel(context.Background())
 		defer cancel()
 		var prog *interp.Program
@@ -418,8 +434,8 @@ func cost(x result, i int) int {
 
 type stats struct {
 	Execs, Points, Cancelled, MaxDepth int
-	Bad                              [][]int
-	BadOutcome                       []string
+	Bad                                [][]int
+	BadOutcome                         []string
 }
 
 func note(st *stats, x result) {
@@ -490,7 +506,7 @@ func main() {
 	var scs []scenario
 	for pi := range family {
 		for _, e := range []string{"eval", "execute", "evalpath"} {
-			scs = append(scs, scenario{pi, e})
+			scs = append(scs, scenario{pi, e, false}, scenario{pi, e, true})
 		}
 	}
 	if r.Replay != "" {
@@ -635,7 +651,7 @@ func main() {
 	r.Set("subtrees_capped", capped)
 	r.Set("exhaustive", capped == 0 && len(res.Abnormal) == 0)
 	r.Set("scenarios", per)
-	r.Set("rule", "12 programs (busy loop, recursion, closure loop, host-driven callback loop, goroutine tree, blocked send, blocked receive, select without default, range over channel, buffered producer/consumer, package-variable initialiser + init + main, two inits) x 3 entry points (EvalWithContext, ExecuteWithContext, EvalPathWithContext on a virtual filesystem); the canceller is an environment thread enabled at every scheduling point: every cancellation point k x every schedule with <= bound deviations from the default (run the current thread, else the lowest id; deviations = preemptions, other thread / select-case / rendezvous-partner choices; scheduling the canceller is free); non-trivial = executions in which the cancel landed while the evaluation was running")
+	r.Set("rule", "12 programs (busy loop, recursion, closure loop, host-driven callback loop, goroutine tree, blocked send, blocked receive, select without default, range over channel, buffered producer/consumer, package-variable initialiser + init + main, two inits) x 3 entry points (EvalWithContext, ExecuteWithContext, EvalPathWithContext on a virtual filesystem) x {fresh interpreter, interpreter that already completed a plain evaluation}; the canceller is an environment thread enabled at every scheduling point: every cancellation point k x every schedule with <= bound deviations from the default (run the current thread, else the lowest id; deviations = preemptions, other thread / select-case / rendezvous-partner choices; scheduling the canceller is free); non-trivial = executions in which the cancel landed while the evaluation was running")
 	r.Assumptions = []string{"deferred native calls that run while a cancelled goroutine unwinds are not counted (the family contains no defers)", "moments before the first interpreted operation (parse/compile) are outside 'k counted in interpreted operations'", "YAEGI_FAST_CHAN=1 is outside the property"}
 	r.Sample(map[string]interface{}{"scenario": scs[0].name(), "schedule": []int{}, "src": family[0].Src})
 	if len(jobs) > 0 {
